@@ -156,6 +156,9 @@ theorem thermalHistory_append (C : BBConst K) (T : Transc K) (w : List K) :
   | .setFill f :: r, th, s₂ => by
     simp only [List.cons_append, thermalHistory, List.foldl_cons]
     rw [thermalHistory_append C T w r _ s₂]
+  | .refused :: r, th, s₂ => by
+    simp only [List.cons_append, thermalHistory, List.foldl_cons, Thermal.step]
+    rw [thermalHistory_append C T w r th s₂]
 
 theorem foldl_step_emis (s : List (ThStep K)) (th : Thermal K) :
     (s.foldl Thermal.step th).emis = th.emis := by
